@@ -53,6 +53,10 @@ def run(ctx):
             ctx.correspond("%s sessions (%s)" % (mode, what), ops, out)
             for line in open(ops, errors="replace"):
                 ctx.distinct.add(hashlib.sha1(line.encode()).digest())
+        c = ctx.coverage.get("counters", {})
+        ctx.oblige("generator reached evaluator inputs beyond one OT-extension chunk (> 512 bits, not byte aligned) with real OT",
+                   c.get("real_evaluator_input_over_512_bits_not_byte_aligned", 0) > 0,
+                   "counters: %s" % {k: v for k, v in c.items() if "512" in k})
         if ctx.broken and not ctx.fails:
             for s in range(ctx.seed + 7000, ctx.seed + 7004):
                 for mode, n in (("ideal", 1500), ("real", 120)):
